@@ -391,7 +391,13 @@ def bundle_measure_obligation(ctx, u, rule):
     """the size pre-computation of rtosc_bundle measures every element exactly as the copy loop does"""
     fnb = u.function("rtosc_bundle")
     measures = []
-    for c in A.calls_in(u.body(fnb), "rtosc_message_length"):
+    # rtosc_bundle itself and the file-local helpers it calls (the sizing pass may live in one)
+    hosts = [fnb]
+    for c_ in A.calls_in(u.body(fnb)):
+        for h_ in u.functions.get(A.callee_name(c_) or "", []):
+            if u.body(h_) is not None and h_.get("storageClass") == "static" and h_ not in hosts:
+                hosts.append(h_)
+    for c in (x for h_ in hosts for x in A.calls_in(u.body(h_), "rtosc_message_length")):
         a = A.kids(c)[1:]
         a0 = A.strip_casts(a[0])
         src0 = "va_arg" if a0.get("kind") == "VAArgExpr" else ("var" if a0.get("kind") == "DeclRefExpr" else A.src(a0))
@@ -405,7 +411,9 @@ def bundle_measure_obligation(ctx, u, rule):
         except FD.Unknown:
             lim = A.src(a[1])
         measures.append((src0, lim, A.where(c)))
-    ctx.ob(rule, "rtosc_bundle:sizer-measures-like-copier", len(measures) >= 2 and len({(m[0], m[1]) for m in measures}) == 1, site=A.where(fnb),
+    if len(measures) < 2:
+        raise AnalysisBroken("%s: the two measurements of rtosc_bundle (sizing pass, copy loop) were not found (%d)" % (rule, len(measures)))
+    ctx.ob(rule, "rtosc_bundle:sizer-measures-like-copier", len({(m[0], m[1]) for m in measures}) == 1, site=A.where(fnb),
            detail={"measurements": [list(m) for m in measures]},
            what="rtosc_bundle measures its elements differently when sizing and when copying: %s" % [(m[0], m[1]) for m in measures])
 
